@@ -20,7 +20,7 @@
 EXTENDS Naturals, Sequences, FiniteSets, TLC, Json
 
 CONSTANTS
-    Families,    \* subset of {"Numeric", "Text", "Json", "Blob", "Map"}
+    Families,    \* subset of {"Numeric", "Text", "Json", "Blob", "Map", "Host", "Concat"}
     MaxLen,      \* 1 or 2 element classes per array
     AllPairs,    \* TRUE: every pair of classes; FALSE: pairs a=b or with an anchor ("good") class
     PairOps,     \* numeric operations for which two-class arrays are enumerated (one-class arrays: every operation)
@@ -31,7 +31,7 @@ vars == <<case, out>>
 
 Reject == "Reject"
 AllDeviations == {"IntCastWraps", "FloatCastUnchecked", "BytesNotValidated",
-                  "MetadataUuidLikeText", "MapKeyWrapsU32"}
+                  "MetadataUuidLikeText", "MapKeyWrapsU32", "TextLengthUnchecked"}
 
 \* =====================================================================================
 \* Numeric family : FloatData, IntegerData, BooleanData, ReferencedData
@@ -144,6 +144,7 @@ LiveNum(kind, cls) == IF kind = "Float" THEN cls ELSE Decode(kind, CodeNum(kind,
 StoredType(kind) ==
     CASE kind = "Float" -> "float" [] IntLike(kind) -> "int32" [] kind = "Boolean" -> "int8"
       [] kind \in {"Text", "Comments", "Metadata"} -> "utf8" [] kind = "Filename" -> "blob"
+      [] kind = "ConcatFloat" -> "float"
       [] kind = "ValueMap" -> "u4+utf8" [] OTHER -> "none"
 
 \* the source dtypes the code converts.  Refusing a representable value is allowed by C08 ("source-refused",
@@ -153,6 +154,31 @@ StoredType(kind) ==
 \*   numeric_data.py:85 `np.ones(n, dtype=bool) * nan` has already turned into float64
 ConvNum(kind, dt, lenrel) ==
     dt \in NumDt /\ (kind = "Float" => (dt \in FloatDt \/ (dt = "bool" /\ lenrel = "shorter")))
+
+\* =====================================================================================
+\* Host cases (family "Numeric" with a host): the length rule is a statement about *the geometry the data hangs on*
+\*   (data.py:151-168 n_values: VERTEX/DEPTH -> parent.n_vertices, CELL -> parent.n_cells, per object class:
+\*   points.py, curve.py / cell_object.py, surface.py, grid2d.py, block_model.py, octree.py:171-177) and about the
+\*   session: the object may have been created in this session or loaded from a re-opened file whose geometry
+\*   arrays have not been touched yet (lazy attributes).  aux = <<host, session>>.
+\* =====================================================================================
+Hosts == {"Points.VERTEX", "Curve.VERTEX", "Curve.CELL", "Surface.CELL", "Grid2D.CELL", "BlockModel.CELL", "Octree.CELL"}
+Sessions == {"creating", "reopened"}
+
+\* =====================================================================================
+\* Concat family : float data of drillholes held in a DrillholeGroup ("concatenated" storage: one float32 channel
+\*   per data name shared by all the holes, sliced by an index table).
+\*   concatenator.py (data / index, update_array_attribute), concatenated data.py, h5_writer.py:262-300
+\*   update_concatenated_field (astype(float32), NaN -> FLOAT_NDV), concatenator.py fetch_values (FLOAT_NDV -> NaN).
+\*   A request = hole B's values + a scenario: what happens to the *other* holes of the channel between the write and
+\*   the first read of B in a session.  The gaps of B must be NaN in every session; the stored precision is float32,
+\*   so the documented exception is the float32 sentinel 2^-126 (class F32NDV).  Source values are float32 numbers
+\*   (held in float32 or float64 arrays); rounding of other float64 values by the 32-bit storage is not judged.
+\* =====================================================================================
+ConcatOps == {"write_read", "reopen_read", "reopen_remove_other", "reopen_append_other", "reopen_overwrite_other",
+              "reopen_remove_hole"}
+ConcatClasses == {"NaN", "Zero", "One", "Frac", "Subnormal", "PosInf", "NegInf", "F32NDV", "NearNDV32"}
+ConcatGap(cls) == cls \in {"NaN", "F32NDV"}
 
 \* =====================================================================================
 \* Text family : TextData.  text_data.py:59-77 (setter), h5_writer.py:630-648, h5_reader.py:481-485
@@ -255,6 +281,19 @@ NumCases ==
                     : es \in {e \in SeqsUpTo(Inhab(r[3])) : Len(e) = 1 \/ r[2] \in PairOps}}
              : r \in NumReq}
 
+\* host cases: two values of an ordinary class (the harness repeats them up to the size of the geometry)
+HostCases ==
+    {Mk("Numeric", r[1], op, r[2], es, <<h, se>>, lr) :
+        r \in {<<"Float", "float64">>, <<"Integer", "int32">>}, op \in {"add", "set"}, es \in {<<"One", "Two">>},
+        h \in Hosts, se \in Sessions, lr \in {"shorter", "equal", "longer"}}
+    \cup {Mk("Numeric", "Float", op, "float64", <<"NaN", "One">>, <<h, se>>, "equal") :
+              op \in {"add", "set"}, h \in Hosts, se \in Sessions}
+
+ConcatCases ==
+    {Mk("Concat", "ConcatFloat", op, dt, es, <<>>, "scalar") :
+        op \in ConcatOps, dt \in {"float32", "float64"},
+        es \in Seq1(ConcatClasses) \cup {<<"NaN", "One">>, <<"One", "NaN">>, <<"F32NDV", "Frac">>, <<"NaN", "NaN">>}}
+
 TextCases ==
     UNION {UNION {
         IF form \in ArrayForms
@@ -296,6 +335,8 @@ Cases == (IF "Numeric" \in Families THEN NumCases ELSE {})
          \cup (IF "Json" \in Families THEN JsonCases ELSE {})
          \cup (IF "Blob" \in Families THEN BlobCases ELSE {})
          \cup (IF "Map" \in Families THEN MapCases ELSE {})
+         \cup (IF "Host" \in Families THEN HostCases ELSE {})
+         \cup (IF "Concat" \in Families THEN ConcatCases ELSE {})
 
 \* =====================================================================================
 \* the codec, per element  (Representable / Encode / Canon / Dev of element i of case c)
@@ -304,18 +345,21 @@ N(c) == Len(c.elems)
 Typed(c) ==
     CASE c.fam = "Numeric" -> c.src \in NumDt /\ c.kind \in NumKinds
       [] c.fam = "Text"    -> TypedText(c.src)
+      [] c.fam = "Concat"  -> TRUE
       [] c.fam = "Json"    -> TypedJson(c.elems[1]) /\ (c.kind = "Comments" => TypedJson(c.aux[1]))
       [] c.fam = "Blob"    -> TypedBlob(c.elems[1])
       [] OTHER             -> \A i \in 1..N(c) : c.elems[i] # "KeyStr" /\ c.aux[i] \notin {"BytesLbl", "IntLbl"}
 Converted(c) ==
     CASE c.fam = "Numeric" -> ConvNum(c.kind, c.src, c.lenrel)
       [] c.fam = "Text"    -> ConvText(c.op, c.src)
+      [] c.fam = "Concat"  -> TRUE
       [] c.fam = "Json"    -> ConvJson(c.elems[1])
       [] c.fam = "Blob"    -> ConvBlob(c.elems[1])
       [] OTHER             -> \A i \in 1..N(c) : ConvKey(c.elems[i])
 Representable(c, i) ==
     CASE c.fam = "Numeric" -> RepNum(c.kind, c.src, c.elems[i])
       [] c.fam = "Text"    -> RepText(c.src, c.elems[i])
+      [] c.fam = "Concat"  -> TRUE                       \* every float32 number fits the float32 channel
       [] c.fam = "Json"    -> RepJson(c.elems[i]) /\ (c.kind = "Comments" => RepJson(c.aux[i]))
       [] c.fam = "Blob"    -> TypedBlob(c.elems[i])
       [] OTHER             -> EntryOK(c.op, c.elems, c.aux, i)
@@ -323,18 +367,31 @@ EncodeD(c, i, devs) ==
     CASE c.fam = "Numeric" -> EncNum(c.kind, c.src, c.elems[i], c.lenrel, devs)
       [] c.fam = "Text"    -> EncText(c.src, c.elems[i], devs)
       [] c.fam = "Map"     -> EncKey(c.op, c.elems, c.aux, i, devs)
+      [] c.fam = "Concat"  -> IF ConcatGap(c.elems[i]) THEN "FNDV" ELSE c.elems[i]     \* h5_writer.py:290-291
       [] OTHER             -> IF Representable(c, i) THEN c.elems[i] ELSE Reject
 Encode(c, i) == EncodeD(c, i, Deviations)
-Canon(c, i) == IF c.fam = "Numeric" THEN CanonNum(c.kind, c.elems[i]) ELSE c.elems[i]
-Live(c, i)  == IF c.fam = "Numeric" THEN LiveNum(c.kind, c.elems[i]) ELSE c.elems[i]
+Canon(c, i) == IF c.fam = "Numeric" THEN CanonNum(c.kind, c.elems[i])
+               ELSE IF c.fam = "Concat" /\ c.elems[i] = "F32NDV" THEN "NaN"    \* documented exception at float32
+               ELSE c.elems[i]
+\* the value seen in the session of the operation: the creating session holds what was given, every later session
+\* reads the channel (whatever happened to the other holes in between)
+Live(c, i)  == IF c.fam = "Numeric" THEN LiveNum(c.kind, c.elems[i])
+               ELSE IF c.fam = "Concat" /\ c.op # "write_read" THEN Canon(c, i)
+               ELSE c.elems[i]
 DevOf(c, i) ==
     CASE c.fam = "Numeric" -> DevNum(c.kind, c.src, c.elems[i], c.lenrel)
       [] c.fam = "Text"    -> DevText(c.src, c.elems[i])
       [] c.fam = "Map"     -> IF RepLabel(c.aux[i]) THEN DevKey(c.elems[i]) ELSE ""
       [] c.kind = "Metadata" /\ c.elems[i] = "LooksLikeUuid" -> "MetadataUuidLikeText"
       [] OTHER -> ""
-LengthChecked(c) == c.fam = "Numeric"      \* numeric_data.py:74-98 format_length; text arrays are stored verbatim
-TooLong(c) == LengthChecked(c) /\ c.lenrel = "longer"
+LengthChecked(c) == c.fam = "Numeric"      \* numeric_data.py:74-98 format_length (padding + refusal)
+\* "more entries than the geometry has" are refused for text arrays as well; as built TextData has no length check at
+\* all (text_data.py:59-77): deviation TextLengthUnchecked stores the longer array verbatim.  (A shorter text array is
+\* stored verbatim too; nothing is altered and text has no no-data code, so that is not judged.)
+TextArray(c) == c.fam = "Text" /\ c.src \in {"U", "S", "object"}
+CaseDev(c) == IF TextArray(c) /\ c.lenrel = "longer" THEN "TextLengthUnchecked" ELSE ""
+TooLongD(c, dv) == c.lenrel = "longer" /\ (LengthChecked(c) \/ (TextArray(c) /\ "TextLengthUnchecked" \notin dv))
+TooLong(c) == TooLongD(c, {})
 Padded(c)  == LengthChecked(c) /\ c.lenrel = "shorter"
 
 LiveD(c, i, code) == IF code \in {"Wrap32", "CCast"} THEN "Altered" ELSE Live(c, i)
@@ -346,20 +403,20 @@ LiveD(c, i, code) == IF code \in {"Wrap32", "CCast"} THEN "Altered" ELSE Live(c,
 NulInBytesArray(c) == c.fam = "Text" /\ c.src = "S" /\ \E i \in 1..N(c) : c.elems[i] = "EmbeddedNul"
 
 NoOut == [done |-> FALSE, verdict |-> "none", reason |-> "none", optional |-> FALSE, enc |-> <<>>,
-          stored |-> <<>>, live |-> <<>>, back |-> <<>>, devs |-> <<>>, stype |-> "none", zero |-> "none",
+          stored |-> <<>>, live |-> <<>>, back |-> <<>>, devs |-> <<>>, cdev |-> "", stype |-> "none", zero |-> "none",
           base |-> "none"]
 
 OutcomeD(c, dv) ==
     LET n    == N(c)
         enc  == [i \in 1..n |-> EncodeD(c, i, dv)]
         bad  == \E i \in 1..n : enc[i] = Reject
-        fits == Typed(c) /\ ~bad /\ ~TooLong(c)
+        fits == Typed(c) /\ ~bad /\ ~TooLongD(c, dv)
         pad  == IF Padded(c) THEN <<PadCode(c.kind)>> ELSE <<>>
         st   == IF fits THEN enc \o pad ELSE <<>>
     IN [done    |-> TRUE,
         verdict |-> IF fits /\ Converted(c) THEN "accept" ELSE "reject",
         reason  |-> IF ~Typed(c) THEN "unsupported-type" ELSE IF bad THEN "unrepresentable"
-                    ELSE IF TooLong(c) THEN "too-long" ELSE IF ~Converted(c) THEN "source-refused" ELSE "ok",
+                    ELSE IF TooLongD(c, dv) THEN "too-long" ELSE IF ~Converted(c) THEN "source-refused" ELSE "ok",
         optional |-> fits /\ (~Converted(c) \/ NulInBytesArray(c)),
         enc     |-> enc,
         stored  |-> st,
@@ -368,6 +425,8 @@ OutcomeD(c, dv) ==
         back    |-> [i \in 1..Len(st) |-> DecodeD(c.kind, st[i], dv)],
         \* per element: the named as-built deviation that concerns it ("" = none)
         devs    |-> [i \in 1..n |-> IF (Typed(c) /\ EncodeD(c, i, {}) = Reject) \/ c.kind = "Metadata" THEN DevOf(c, i) ELSE ""],
+        \* the named as-built deviation that concerns the request as a whole ("" = none)
+        cdev    |-> CaseDev(c),
         stype   |-> StoredType(c.kind),
         \* label of key 0 in the stored value map
         zero    |-> IF c.fam = "Map" /\ fits THEN (IF BoolExempt(c.op, c.elems, c.aux) THEN "FalseLbl" ELSE "Unknown")
@@ -395,7 +454,7 @@ Stored   == out.done /\ out.stored # <<>>       \* what must hold whenever the w
 RoundTrip ==
     Stored => \A i \in 1..N(case) : out.back[i] = Canon(case, i)
 CanonIsIdentityButGaps ==
-    out.done => \A i \in 1..N(case) : Canon(case, i) # case.elems[i] => case.elems[i] \in {"NaN", "FloatNDV"}
+    out.done => \A i \in 1..N(case) : Canon(case, i) # case.elems[i] => case.elems[i] \in {"NaN", "FloatNDV", "F32NDV"}
 \* a value that cannot be represented is rejected, never altered
 UnrepresentableRejected ==
     out.done => ((\E i \in 1..N(case) : ~Representable(case, i)) => (out.verdict = "reject" /\ out.stored = <<>>))
@@ -404,8 +463,13 @@ NoAlteredCode ==
     out.done => \A i \in 1..Len(out.stored) : out.stored[i] \notin {"Wrap32", "CCast", "RawBytes", "WrapU32"}
 \* NaN <-> float no-data code
 NaNIsFloatNDV ==
-    Stored /\ case.kind = "Float" =>
-        \A i \in 1..N(case) : (out.stored[i] = "FNDV") <=> (case.elems[i] \in {"NaN", "FloatNDV"})
+    Stored /\ case.kind \in {"Float", "ConcatFloat"} =>
+        \A i \in 1..N(case) : (out.stored[i] = "FNDV") <=> (case.elems[i] \in {"NaN", "FloatNDV", "F32NDV"})
+\* the gaps of a hole are gaps in every session, whatever was done to the other holes of the channel
+ConcatGapsStayGaps ==
+    Stored /\ case.fam = "Concat" =>
+        \A i \in 1..N(case) : /\ (case.elems[i] = "NaN" => out.live[i] = "NaN" /\ out.back[i] = "NaN")
+                               /\ (~ConcatGap(case.elems[i]) => out.live[i] = case.elems[i] /\ out.back[i] = case.elems[i])
 \* integer gap <-> -2147483648
 IntGapIsIntNDV ==
     Stored /\ IntLike(case.kind) =>
@@ -426,6 +490,8 @@ MapWritten ==
         /\ \A i \in 1..N(case) : out.stored[i] = case.elems[i] /\ out.back[i] = case.elems[i]
         /\ out.base = (IF case.op \in EditOps THEN "kept" ELSE "dropped")
 \* shorter arrays are padded with the no-data code, longer ones rejected
+TooLongRejected ==
+    out.done /\ case.lenrel = "longer" /\ (LengthChecked(case) \/ TextArray(case)) => out.verdict = "reject"
 LengthRule ==
     out.done /\ LengthChecked(case) =>
         /\ case.lenrel = "longer" => out.verdict = "reject"
